@@ -325,6 +325,8 @@ def variable_values_section(ctx):
         fn = ["compileVariableTTF", "compileVariableCFF2"][(i // 2) % 2]
         vfeat = (i // 4) % 2 == 0
         d = [0, rng.choice([7, 12, 25]), rng.choice([40, 64])]           # not linear along the axis
+        if i % 4 == 1:
+            d[2] = 0            # ... and not monotonic: the first and the last master agree, the middle one differs
         # one family in four has NO left-to-right code point at all (an Arabic-only font): the cursive writer then adds its
         # statements before anybody compiled the temporary GSUB (repaired defect F29)
         rtl_only = i % 4 == 3
